@@ -13,6 +13,9 @@ declare -A EXTRA=(
  [C01-merge-carryover]="C04"
  [C10-facet-merge-skips-total-zero-again]="C09"
  [C02-unadorned-1hit-at-or-after-lte]="C05 C08"
+ [C05-unadorned-disjunction-scratch-reset-late]="C02"
+ [C13-flushed-segment-deleted-bits-skipped]="C03"
+ [C15-moss-batch-delete-bytes-uncounted]="C01"
 )
 seeds=("$@"); [ ${#seeds[@]} -eq 0 ] && seeds=($(ls seeded | grep -v MATRIX))
 for sd in "${seeds[@]}"; do
